@@ -213,6 +213,12 @@ def get_item(eng, st, base, key, node, spec=False):
     base, key = lift(base), lift(key)
     ty = base.ty
     if isinstance(ty, TList):
+        if spec:
+            kt = z3.simplify(ops.to_int(key))
+            if z3.is_int_value(kt) and kt.as_long() < 0:
+                kt = ops.list_len(base) + kt
+            # contract text: total selection (symbolic indices are never negative in contracts)
+            return Val(ty.elem, ops.list_arr(base)[kt])
         v, safe = ops.list_get(base, ops.to_int(key))
         eng.safety(st, safe, node, 'list-index', spec)
         if base.loc is not None:
@@ -486,6 +492,10 @@ def apply_contract(eng, st, node, con, allow_raise):
         if k.startswith('self.') and '.' in con.qualname:
             pre.env[k] = v
     label = con.qualname.split('.')[-1]
+    for p, value in con.fix.items():
+        goal = ops.equal(pre.env[p], lift(value))
+        eng.oblige(st, 'call-pre', goal, node, '%s.fixed-%s' % (label, p), detail='%s == %r' % (p, value))
+        pre.env[p] = lift(value)
     for j, r in enumerate(con.requires):
         goal = eng.spec_bool(r, pre, None)
         eng.oblige(st, 'call-pre', goal, node, '%s.requires%d' % (label, j), detail=r)
@@ -593,7 +603,9 @@ def spec_call(eng, st, e, old):
             body = ops.truthy(eng.ev(lam.body, sub, True, old))
             return Val(TBool, z3.ForAll(vs, body) if n == 'forall_int' else z3.Exists(vs, body))
         if n in eng.spec_funcs:
-            args = [eng.ev(a, st, True, old) for a in e.args]
+            args = [lift(eng.ev(a, st, True, old)) for a in e.args]
+            if n in eng.c.opaque:
+                return eng.spec_funcs[n].opaque(eng, st, *args)
             return eng.spec_funcs[n].smt(eng, st, *args)
         if n in BUILTINS:
             return BUILTINS[n](eng, st, e, spec=True, old=old)
@@ -605,35 +617,40 @@ def spec_call(eng, st, e, old):
 
 
 def quantifier(eng, st, gen, kind, old, spec=True):
-    """all(P for x in S [if C]) / any(...) -> bounded quantifier over the index."""
-    if len(gen.generators) != 1:
-        # nested generators: all(P for a in A for b in B) == all(all(P for b in B) for a in A)
-        inner = ast.GeneratorExp(elt=gen.elt, generators=gen.generators[1:])
-        call = ast.Call(func=ast.Name(id=kind, ctx=ast.Load()), args=[inner], keywords=[])
-        gen = ast.GeneratorExp(elt=call, generators=gen.generators[:1])
-    comp = gen.generators[0]
-    it = eng.ev(comp.iter, st, spec, old)
-    if isinstance(it, PyList):
-        parts = []
-        for item in it.items:
-            sub = st.copy()
-            eng.assign(comp.target, item, sub, gen)
-            conds = [ops.truthy(eng.ev(c, sub, spec, old)) for c in comp.ifs]
-            body = ops.truthy(eng.ev(gen.elt, sub, spec, old))
-            parts.append(z3.Implies(z3.And(*conds), body) if kind == 'all' else z3.And(body, *conds))
-        if not parts:
-            return Val(TBool, TRUE if kind == 'all' else FALSE)
-        return Val(TBool, z3.And(*parts) if kind == 'all' else z3.Or(*parts))
-    seq = as_sequence(eng, st, it, gen)
-    i = z3.Int(fresh_name('q'))
+    """all(P for x in S [if C] for y in T ...) / any(...) -> ONE prenex bounded quantifier over the indices."""
     sub = st.copy()
-    eng.assign(comp.target, seq.getter(i), sub, gen)
-    conds = [ops.truthy(eng.ev(c, sub, spec, old)) for c in comp.ifs]
-    body = ops.truthy(eng.ev(gen.elt, sub, spec, old))
-    rng = z3.And(0 <= i, i < seq.length, *conds)
-    if kind == 'all':
-        return Val(TBool, z3.ForAll([i], z3.Implies(rng, body)))
-    return Val(TBool, z3.Exists([i], z3.And(rng, body)))
+    bound = []
+    ranges = []
+    pylists = []
+
+    def expand(k):
+        """Returns the body formula with generators k.. bound; constant lists are unrolled."""
+        if k == len(gen.generators):
+            return ops.truthy(eng.ev(gen.elt, sub, spec, old))
+        comp = gen.generators[k]
+        it = eng.ev(comp.iter, sub, spec, old)
+        if isinstance(it, PyList):
+            parts = []
+            for item in it.items:
+                eng.assign(comp.target, item, sub, gen)
+                conds = [ops.truthy(eng.ev(c, sub, spec, old)) for c in comp.ifs]
+                body = expand(k + 1)
+                parts.append(z3.Implies(z3.And(*conds), body) if kind == 'all' else z3.And(body, *conds))
+            if not parts:
+                return TRUE if kind == 'all' else FALSE
+            return z3.And(*parts) if kind == 'all' else z3.Or(*parts)
+        seq = as_sequence(eng, sub, it, gen)
+        i = z3.Int(fresh_name('q'))
+        bound.append(i)
+        eng.assign(comp.target, seq.getter(i), sub, gen)
+        conds = [ops.truthy(eng.ev(c, sub, spec, old)) for c in comp.ifs]
+        rng = z3.And(0 <= i, i < getattr(seq, 'raw_len', seq.length), *conds)
+        body = expand(k + 1)
+        return z3.Implies(rng, body) if kind == 'all' else z3.And(rng, body)
+    body = expand(0)
+    if not bound:
+        return Val(TBool, body)
+    return Val(TBool, z3.ForAll(bound, body) if kind == 'all' else z3.Exists(bound, body))
 
 
 def comprehension(eng, st, e, spec, old, kind):
@@ -690,7 +707,9 @@ def b_range(eng, st, node, spec=False, old=None):
     else:
         raise Unsupported('range with step')
     n = z3.If(hi > lo, hi - lo, z3.IntVal(0))
-    return SeqView(n, lambda i, lo=lo: Val(TInt, lo + i), 'range')
+    sv = SeqView(n, lambda i, lo=lo: Val(TInt, lo + i), 'range')
+    sv.raw_len = z3.simplify(hi - lo)      # 0 <= i < raw_len is the same index set, without the ite
+    return sv
 
 
 def b_enumerate(eng, st, node, spec=False, old=None):
